@@ -204,6 +204,7 @@ do_hp(char * l)
 	free(s);
 }
 
+static const char * text_tracepath;	/* temporary files of the codec operations live next to the trace */
 #include "drv_text_codec.h"
 
 int
@@ -214,6 +215,7 @@ main(int argc, char ** argv)
 
 	if (argc < 3) { fprintf(stderr, "usage: drv_text programs trace\n"); return (3); }
 	if ((f = fopen(argv[1], "r")) == NULL) { perror(argv[1]); return (3); }
+	text_tracepath = argv[2];
 	vt_open(argv[2]);
 	while (fgets(line, sizeof(line), f) != NULL) {
 		if (strncmp(line, "prog", 4) == 0) { vt_reset(); continue; }
